@@ -129,7 +129,8 @@ Fixpoint layout_ok (this_is_ws : bool) (n : node) : bool :=
   | _ => true
   end.
 
-(* every configuration in the tree is an up-to-date v2 one (other versions belong to C20) *)
+(* every .signac/config in the tree is an up-to-date v2 one (other versions belong to C20); leftover
+   legacy signac.rc files are allowed - see rc_ok *)
 Fixpoint cfgs_ok (n : node) : bool :=
   match n with
   | File (FCfg c) => optZ_eqb (cv c) (Some SCHEMA)
@@ -139,8 +140,20 @@ Fixpoint cfgs_ok (n : node) : bool :=
       (fix go (l : list (str * node)) : bool :=
          match l with
          | [] => true
-         | (k, v) :: l' => negb (str_eqb k s_rc) && cfgs_ok v && go l'
+         | (k, v) :: l' => (if str_eqb k s_rc then true else cfgs_ok v) && go l'
          end) es
+  end.
+
+(* a legacy configuration file (signac.rc) occurs somewhere in the tree *)
+Fixpoint has_rc (n : node) : bool :=
+  match n with
+  | Dir es =>
+      (fix go (l : list (str * node)) : bool :=
+         match l with
+         | [] => false
+         | (k, v) :: l' => str_eqb k s_rc || has_rc v || go l'
+         end) es
+  | _ => false
   end.
 
 Definition optpath_eqb (a b : option (list str)) : bool :=
@@ -201,14 +214,6 @@ Definition job_layout (root : node) (cwd : str) (comps : list str) : bool :=
          | Some (_, []) => false
          end).
 
-Definition pre_q (base : str) (tree : node) (q : query) : bool :=
-  forallb (fun c => negb (is_id c)) (base_comps base)
-  && layout_ok false tree && links_ok false tree && cfgs_ok tree && regular (mkroot base tree) q
-  && match q_kind q with
-     | QJob => job_layout (mkroot base tree) (q_cwd q) (q_comps q)
-     | _ => true
-     end.
-
 Definition expected (root : node) (q : query) : option qres :=
   let comps := q_comps q in
   let ex := match phys root comps with
@@ -238,6 +243,28 @@ Definition expected (root : node) (q : query) : option qres :=
   | QInit =>
       if ex && has_cfg root comps then Some (RRoot (abs_of comps)) else None
   end.
+
+(* leftover legacy files (signac.rc in a plain sub-directory, a job directory, beside a current
+   configuration).  The property speaks of the nearest enclosing INITIALISED project: whenever there
+   is one (the expected answer is a project / a job), a legacy file on the way is not an initialised
+   project and must be walked past.  When nothing is found the refusal of a legacy project
+   (IncompatibleSchemaVersion instead of LookupError) is C20's subject: such queries are compared with
+   the model only, unless the path does not exist at all. *)
+Definition rc_ok (root : node) (tree : node) (q : query) : bool :=
+  negb (has_rc tree)
+  || match expected root q with
+     | Some (RErr _) => negb (exists_at root (q_comps q))
+     | _ => true
+     end.
+
+Definition pre_q (base : str) (tree : node) (q : query) : bool :=
+  forallb (fun c => negb (is_id c)) (base_comps base)
+  && layout_ok false tree && links_ok false tree && cfgs_ok tree && rc_ok (mkroot base tree) tree q
+  && regular (mkroot base tree) q
+  && match q_kind q with
+     | QJob => job_layout (mkroot base tree) (q_cwd q) (q_comps q)
+     | _ => true
+     end.
 
 (* the job's project is the one whose workspace physically holds the job directory *)
 Definition holder_ok (root : node) (q : query) : bool :=
@@ -269,7 +296,7 @@ Definition init_unchanged (base : str) (tree : node) (q : query) : bool :=
      | _, _ => false
      end.
 
-Definition holds_q (base : str) (tree : node) (q : query) : bool :=
+Definition holds_core (base : str) (tree : node) (q : query) : bool :=
   if pre_q base tree q then
     let root := mkroot base tree in
     match expected root q with
@@ -279,6 +306,36 @@ Definition holds_q (base : str) (tree : node) (q : query) : bool :=
     | None => true
     end
   else true.
+
+(* discovery never resets anything: a call that returns a project (or a job of it) leaves the whole tree
+   byte for byte as it was, except that the missing workspace directory of THAT project is (re)created
+   empty - configuration, project document, state point cache and everything else stay; a call that
+   raises leaves the tree untouched.  (init_project: clause init_unchanged of holds_core.) *)
+Definition unchanged_or_ws (base : str) (tree : node) (q : query) (pcomps : list str) : bool :=
+  let root := mkroot base tree in
+  negb (q_changed q)
+  || match q_post q, phys root pcomps with
+     | Some t, Some ph =>
+         match get root (ph ++ [s_workspace]) with
+         | None => sub_eqb (upd (ph ++ [s_workspace]) (Some (Dir [])) root) (base_comps base) t
+         | Some _ => false
+         end
+     | _, _ => false
+     end.
+
+Definition change_ok (base : str) (tree : node) (q : query) : bool :=
+  match q_kind q, q_res q with
+  | QInit, RRoot _ => true                                   (* init_unchanged *)
+  | _, RRoot r => unchanged_or_ws base tree q (norm_comps true (split_sl r))
+  | _, RJob r _ => unchanged_or_ws base tree q (norm_comps true (split_sl r))
+  | _, RErr _ => negb (q_changed q)
+  end.
+
+Definition holds_q (base : str) (tree : node) (q : query) : bool :=
+  holds_core base tree q
+  && (if pre_q base tree q then
+        match expected (mkroot base tree) q with Some _ => change_ok base tree q | None => true end
+      else true).
 
 Definition violation_C19 (c : case_C19) : bool :=
   negb (forallb (holds_q (c19_base c) (c19_tree c)) (c19_qs c)).
